@@ -13,8 +13,10 @@
    2. `exp_block_triangular`            `exp [[A,E],[0,B]] = [[exp A, L],[0, exp B]]`, `L = Σ_k D_k/k!` (HasSum)
       `frechet_first_order_coefficients`  for every `k` the `t¹`-coefficient of `(A + t•E)^k/k!` is the `k`-th term of the series of
                                         `L = expBlock A E A` (series-level Fréchet derivative)
-      `exp_add_smul_hasDerivAt`         `d/dt exp(A + t•E)|_{t=0} = expBlock A E A` (the non-commuting derivative, as a `HasDerivAt`
-                                        in the operator norm) — see `Proofs/FrechetDeriv.lean`
+      `exp_add_smul_hasDerivAt`         `d/dt exp(A + t•E)|_{t=0} = expBlock A E A`: the NON-COMMUTING derivative as a `HasDerivAt` (operator
+                                        norm), from `exp(A+tE) = exp A + t L + t² S(t)`, `‖S(t)‖ ≤ exp(3(‖A‖+‖E‖))` for `|t| ≤ 1`
+                                        (`Proofs/FrechetDeriv.lean`, any complete normed ℂ-algebra; Mathlib has the commuting case only)
+      `expectation_hasDerivAt(_real)`   `d/dt ⟨g| exp(A + tE) |ψ⟩|_{t=0} = ⟨g| expBlock A E A |ψ⟩`, complex and real parameter
    3. `double_krylov_identity`          in the code's convention (rows of `Vs`, `Vg` = Lanczos vectors, `dU = Vsᵀ @ dS @ Vg*`): for an
                                         anti-Hermitian `A` (`op = −i·dt·H`), exact Lanczos relations and orthonormal `Vg`,
                                         `expBlock A |state⟩⟨grad| A = Vsᵀ · expBlock Ts (‖s‖‖g‖ e₀e₀ᵀ) Tg · Vg*` — `Tg` enters
@@ -22,13 +24,14 @@
       `backward_parameter_gradient`     `⟨g| expBlock A (−i dt ∂H) A |ψ⟩ = −i dt · tr(Vg* · (∂H · (Vsᵀ dS)))` — the number
                                         `-1j*dt*tensordot(Vg.conj(), dH @ e_l)`, `e_l = dS.mT @ Vs`, of `backward`
       `backward_state_gradient`         `⟨g| exp(A) x⟩ = ⟨exp(−A) g| x⟩` for anti-Hermitian `A` (`grad_state_in = exp(+i dt H) g`)
+      `backward_gradient_is_derivative` all of it: `d/dt ⟨g| exp(−i·dt·(H + t·∂H)) |ψ⟩|_{t=0}` (real `t`) `= −i dt tr(Vg* ∂H Vsᵀ dS)`
    4. `big_mat_is_block_triangular`, `dS_is_top_right_block`, `model_dS_is_expBlock`, `lanczos_raises_only_recursion`,
       `lanczos_returns_square_T`        bookkeeping of `Model.DoubleKrylov` (tied to the code by the tape correspondence)
   Assumed (hypotheses of 3): the two Lanczos relations hold exactly (both runs end in a happy breakdown) — the truncation
   error of an accepted error estimate is measured by the dense oracle of `harness/props/c30_frechet.py`; `torch.matrix_exp`
   is an oracle (`MexpContract`).
 -/
-import EmuVerif.Proofs.FrechetExp
+import EmuVerif.Proofs.FrechetDeriv
 import EmuVerif.Proofs.DoubleKrylov
 
 set_option linter.unusedSectionVars false
@@ -95,6 +98,30 @@ theorem frechet_first_order_coefficients (A E : Matrix n n ℂ) :
       ∧ HasSum (fun k : ℕ => ((k ! : ℂ)⁻¹) • A ^ k) (exp A) := by
   refine ⟨fun t k => ?_, hasSum_expBlock A E A, hasSum_exp A⟩
   rw [add_smul_pow, dpow_eq_rdpow, smul_add, smul_add, smul_comm _ t, smul_comm _ (t * t)]
+
+set_option backward.isDefEq.respectTransparency false in
+/-- **the Fréchet derivative of the matrix exponential in a non-commuting direction** -/
+theorem exp_add_smul_hasDerivAt {n : Type*} [Fintype n] [DecidableEq n] (A E : Matrix n n ℂ) :
+    open scoped Matrix.Norms.Operator in HasDerivAt (fun t : ℂ => exp (A + t • E)) (expBlock A E A) 0 :=
+  hasDerivAt_exp_add_smul_matrix A E
+
+/-- second-order expansion with an explicit bound, any complete normed `ℂ`-algebra -/
+theorem exp_add_smul_second_order {𝔸 : Type*} [NormedRing 𝔸] [NormedAlgebra ℂ 𝔸] [CompleteSpace 𝔸] (a e : 𝔸) (t : ℂ)
+    (ht : ‖t‖ ≤ 1) :
+    exp (a + t • e) = exp a + t • frechetL a e + (t * t) • frechetS t a e
+      ∧ ‖frechetS t a e‖ ≤ Real.exp (3 * (‖a‖ + ‖e‖))
+      ∧ HasSum (fun k : ℕ => ((k ! : ℂ)⁻¹) • ∑ j ∈ Finset.range k, a ^ j * e * a ^ (k - 1 - j)) (frechetL a e) := by
+  obtain ⟨h1, h2⟩ := exp_add_smul_expansion a e t ht
+  refine ⟨h1, h2, ?_⟩
+  simpa only [rdpow_eq_sum] using hasSum_frechetL a e
+
+theorem expectation_hasDerivAt {n : Type*} [Fintype n] [DecidableEq n] (A E : Matrix n n ℂ) (g ψ : n → ℂ) :
+    HasDerivAt (fun t : ℂ => star g ⬝ᵥ (exp (A + t • E) *ᵥ ψ)) (star g ⬝ᵥ (expBlock A E A *ᵥ ψ)) 0 :=
+  hasDerivAt_sandwich_exp A E g ψ
+
+theorem expectation_hasDerivAt_real {n : Type*} [Fintype n] [DecidableEq n] (A E : Matrix n n ℂ) (g ψ : n → ℂ) :
+    HasDerivAt (fun t : ℝ => star g ⬝ᵥ (exp (A + (t : ℂ) • E) *ᵥ ψ)) (star g ⬝ᵥ (expBlock A E A *ᵥ ψ)) 0 :=
+  hasDerivAt_sandwich_exp_real A E g ψ
 
 end exponential
 
@@ -167,6 +194,26 @@ theorem backward_parameter_gradient (A : Matrix N N ℂ) (hA : Aᴴ = -A) (Vs : 
     trace_mul_comm]
   congr 1
   rw [← Matrix.mul_assoc, trace_mul_comm]
+
+/-- **the contract of `backward`, closed**: for `A = −i·dt·H` anti-Hermitian, a real parameter entering `H` affinely with
+derivative `∂H` (`Ω_k`, `δ_k`, `U_ij`: `Props.C30.*_derivative_exact`; for `φ_k` the first-order term is `DHDPhi`), exact Lanczos
+relations: the derivative of `t ↦ ⟨g| exp(−i·dt·(H + t·∂H)) |ψ⟩` at `0` is the number the code computes (its real part is
+stored). -/
+theorem backward_gradient_is_derivative (H dH : Matrix N N ℂ) (dt : ℝ) (hH : Hᴴ = H) (Vs : Matrix ps N ℂ)
+    (Vg : Matrix pg N ℂ) (Ts : Matrix ps ps ℂ) (Tg : Matrix pg pg ℂ) (i0 : ps) (j0 : pg)
+    (hVg : Vg.map star * Vgᵀ = 1)
+    (hTs : ((-(Complex.I * dt)) • H) * Vsᵀ = Vsᵀ * Ts) (hTg : ((-(Complex.I * dt)) • H) * Vgᵀ = Vgᵀ * Tg)
+    (ψ g : N → ℂ) (ns ng : ℝ) (hs : ψ = fun x => (ns : ℂ) * Vs i0 x) (hg : g = fun x => (ng : ℂ) * Vg j0 x) :
+    HasDerivAt (fun t : ℝ => star g ⬝ᵥ (exp ((-(Complex.I * dt)) • (H + (t : ℂ) • dH)) *ᵥ ψ))
+      (-(Complex.I * dt) * trace (Vg.map star * (dH * (Vsᵀ * expBlock Ts (single i0 j0 ((ns * ng : ℝ) : ℂ)) Tg)))) 0 := by
+  have hA : ((-(Complex.I * dt)) • H)ᴴ = -((-(Complex.I * dt)) • H) := by
+    rw [conjTranspose_smul, hH, ← neg_smul]
+    congr 1
+    simp [Complex.conj_ofReal]
+  have h := expectation_hasDerivAt_real ((-(Complex.I * dt)) • H) ((-(Complex.I * dt)) • dH) g ψ
+  rw [backward_parameter_gradient _ hA Vs Vg Ts Tg i0 j0 hVg hTs hTg ψ g ns ng hs hg] at h
+  refine h.congr_of_eventuallyEq (Filter.Eventually.of_forall fun t => ?_)
+  simp only [smul_add, smul_comm ((t : ℂ)) _ dH]
 
 /-- **the state gradient**: `⟨g| exp(A) x⟩ = ⟨exp(−A) g| x⟩` for anti-Hermitian `A` — `grad_state_in = exp(+i·dt·H) g` -/
 theorem backward_state_gradient (A : Matrix N N ℂ) (hA : Aᴴ = -A) (g x : N → ℂ) :
